@@ -542,6 +542,14 @@ def compare(real, m, mismatches):
                 changed = (forms[0]["vals"], forms[0]["n_in"]) != (rec["orig_form"]["vals"], rec["orig_form"]["n_in"])
                 if e["mustChange"] and not changed:
                     mismatches.append(("converter", f"{rec['op']} -> {tgt}: form unchanged although the old form is not accepted at the target"))
+    by_name: dict = {}
+    for rec in real["abe"]:
+        if rec["cls"] == "convert" and rec["fresh"] is not None and rec.get("orig_form"):
+            k = (rec["name"], json.dumps(rec["orig_form"], sort_keys=True), json.dumps(rec["st"]))
+            first = by_name.setdefault(k, rec["fresh"])
+            if first != rec["fresh"]:
+                mismatches.append(("names", f"{rec['name']} ({rec['op']}) converted twice in one build (scopes of their own): "
+                                            f"introduced {first} and {rec['fresh']}; the model's names depend on the node name only"))
     if real["complete"]:
         if real["imports"] != m["imports"]:
             mismatches.append(("imports", f"real {real['imports']} model {m['imports']}"))
@@ -1013,6 +1021,8 @@ def shrink(prog, stage, budget=120):
                 d = json.dumps([st.get("domain"), st["params"], st["body"]], sort_keys=True)
                 if defs.setdefault(st["name"], d) != d:
                     return False
+            if st["op"] == "reffn" and defs.setdefault("reffn:" + st["name"], st["mv"]) != st["mv"]:
+                return False
         vis = chk(p["nodes"], {"x", "y"})
         return vis is not False and all(o in vis for o in p["outs"]) and bool(p["nodes"])
 
